@@ -10,7 +10,8 @@ LEVEL = "exploration"
 RULE = (
     "case = legal frame stream with 0..6 pings (all payload lengths 0..125 enumerated at three positions: alone, between "
     "messages, inside a fragmented message; Hypothesis: any position, back-to-back, with pongs and data around), "
-    "control_frame on/off, driver recv/recv_data/recv_data_frame, delivery cuts. Non-trivial: >= 2 pings, or a ping "
+    "control_frame on/off, driver recv/recv_data/recv_data_frame, delivery cuts, optional earlier use of the connection "
+    "by the application (a sent message, its own ping, or its own close frame via send_close). Non-trivial: >= 2 pings, or a ping "
     "inside a fragmented message, or ping payload length 0 or 125. Distinct = (driver, cf, frame shapes, ping lengths)."
 )
 ORACLES = [
@@ -25,10 +26,27 @@ ASSUMPTIONS = ["transport accepts whole writes (short writes are C12)"]
 def run_case(case):
     obs = Obs()
     specs, driver, cf = case["frames"], case["driver"], case.get("cf", False)
-    events, ws, fs, frames, ends, wire = rx.run_stream(specs, case.get("cuts", []), driver, cf)
+    pre = case.get("pre")
+    if pre:
+        # the application has already used the connection (sent data, a ping, or its own close frame) before it receives
+        from ..fakesock import make_ws, split_at
+
+        wire, frames, ends = rx.wire_of(specs)
+        ws, fs = make_ws(split_at(wire, case.get("cuts", [])))
+        if pre == "send_close":
+            ws.send_close(1001, b"bye")
+        elif pre == "send":
+            ws.send("hello")
+        else:
+            ws.ping(b"mine")
+        fs.sent = bytearray()
+        fs.log = []
+        events = rx.drive(ws, fs, driver, cf)
+    else:
+        events, ws, fs, frames, ends, wire = rx.run_stream(specs, case.get("cuts", []), driver, cf)
     want, wwr = rx.expected_events(frames, ends, len(wire), driver, cf)
-    if rx.compare(obs, events, want, f"trace|{driver}"):
-        rx.compare_writes(obs, fs, wwr, "replies")
+    if rx.compare(obs, events, want, f"trace{'|after-' + pre if pre else ''}|{driver}"):
+        rx.compare_writes(obs, fs, wwr, f"replies{'|after-' + pre if pre else ''}")
     # ordered log analysis
     triggers = [(end, f) for f, end in zip(frames, ends) if f.opcode in (rm.PING, rm.CLOSE)]
     consumed, ti, pending = 0, 0, None
@@ -69,8 +87,8 @@ def run_case(case):
         elif f.opcode == rm.PING and inmsg:
             inside = True
     nt = len(pings) >= 2 or inside or any(len(p.payload) in (0, 125) for p in pings)
-    obs.cls = (driver, f"cf:{int(cf)}", f"pings:{min(len(pings), 6)}", f"inside_msg:{int(inside)}", f"cuts:{min(len(case.get('cuts', [])), 3)}")
-    obs.nt = (driver, cf, rx.shape(frames), tuple(len(p.payload) for p in pings)) if nt and pings else None
+    obs.cls = (driver, f"cf:{int(cf)}", f"pings:{min(len(pings), 6)}", f"inside_msg:{int(inside)}", f"cuts:{min(len(case.get('cuts', [])), 3)}", f"pre:{pre}")
+    obs.nt = (driver, cf, rx.shape(frames), tuple(len(p.payload) for p in pings), pre) if nt and pings else None
     return obs
 
 
@@ -87,8 +105,9 @@ def enum_cases():
                 specs = [{"fin": 0, "op": rm.TEXT, "p": b"a"}, ping, {"fin": 0, "op": rm.CONT, "p": b""}, ping, {"fin": 1, "op": rm.CONT, "p": b"c"}]
             else:
                 specs = [ping, {"fin": 1, "op": rm.PONG, "p": payload}, ping, ping]
-            for driver, cf in (("recv", False), ("data", True), ("data_frame", False)):
-                yield {"frames": specs, "driver": driver, "cf": cf, "cuts": [] if n % 3 else list(range(1, 40))}
+            for di, (driver, cf) in enumerate((("recv", False), ("data", True), ("data_frame", False))):
+                yield {"frames": specs, "driver": driver, "cf": cf, "cuts": [] if n % 3 else list(range(1, 40)),
+                       "pre": (None, None, "send_close", "send", "ping")[(n + di) % 5]}
 
 
 @st.composite
@@ -108,7 +127,7 @@ def cases(draw):
     wire, frames, ends = rx.wire_of(specs)
     inside, seams = rx.header_offsets(frames)
     cuts = draw(rx.cutset(len(wire), inside + seams)) if draw(st.booleans()) else []
-    return {"frames": specs, "driver": driver, "cf": cf, "cuts": cuts}
+    return {"frames": specs, "driver": driver, "cf": cf, "cuts": cuts, "pre": draw(st.sampled_from([None, None, None, "send_close", "send", "ping"]))}
 
 
 def jobs(tier, seed):
